@@ -1,7 +1,95 @@
-import PvlModel.Model.Spec
+import PvlModel.Props.C10
 /-!
-# C19
-(theorems are added below as they are proved; see DESIGN §5)
+# C19 — `pvl.new` loaders return the same content as the default loaders
+
+`pvl.new` runs the *same* parser and encoder with the container classes built on the third-party
+`multidict` package.  That package is not part of /repo and is not modelled; its behaviour enters as a
+**parameter** (`ListLike`): a container whose `items()` after `append(k, v)` is the old list with the pair
+at the end, and after `pop()` on a non-empty container is the old list without its last pair.  These two
+assumptions are part of the trusted base for C19 (DESIGN §9) and are what `vlib/props/c19.py` exercises on
+the real classes.
+
+The parser touches the container it builds through exactly these two methods (`module.append` in
+`parse_module` / `parse_aggregation_block`, `module.pop()` + `module.append` in the default loader's
+repair of an empty value).  The theorem: for **every** sequence of those calls, any container meeting the
+two assumptions shows the same list of pairs as the default container (`OrderedMultiDict`, through its
+two-representation model and `C10_history`) — so the two loaders' results have the same items at every
+level, whatever the text.
 -/
-namespace Pvl
-end Pvl
+namespace Pvl.MD
+open Spec
+variable {K V : Type} [DecidableEq K]
+
+/-- what the parser does to a container under construction -/
+inductive POp (K V : Type)
+  | append (k : K) (v : V)
+  | pop
+
+/-- the assumed behaviour of a list-like multi-dict (the third-party `multidict` behind `pvl.new`) -/
+structure ListLike (C K V : Type) where
+  empty : C
+  append : C → K → V → C
+  pop : C → C
+  items : C → List (K × V)
+  items_empty : items empty = []
+  items_append : ∀ c k v, items (append c k v) = items c ++ [(k, v)]
+  items_pop : ∀ c, items c ≠ [] → items (pop c) = (items c).dropLast
+
+/-- the same calls on such a container (`pop()` on an empty container raises in both families and the
+    parser never does it; here it leaves the container as it is) -/
+def runC {C : Type} (L : ListLike C K V) (c : C) : List (POp K V) → C
+  | [] => c
+  | .append k v :: r => runC L (L.append c k v) r
+  | .pop :: r => runC L (if (L.items c).isEmpty then c else L.pop c) r
+
+def POp.toOp : POp K V → Op K V
+  | .append k v => .append k v
+  | .pop => .pop
+
+theorem runC_spec {C : Type} (L : ListLike C K V) (ops : List (POp K V)) : ∀ c : C,
+    L.items (runC L c ops) = Spec.run (L.items c) (ops.map POp.toOp) := by
+  induction ops with
+  | nil => intro c; rfl
+  | cons o r ih =>
+    intro c
+    cases o with
+    | append k v =>
+      simp only [runC, List.map_cons, POp.toOp, Spec.run, List.foldl_cons, Spec.step]
+      rw [ih, L.items_append]; rfl
+    | pop =>
+      simp only [runC, List.map_cons, POp.toOp, Spec.run, List.foldl_cons]
+      rw [ih]
+      congr 1
+      cases hl : L.items c with
+      | nil => simp [hl, Spec.step]
+      | cons a b =>
+        have hne : L.items c ≠ [] := by rw [hl]; simp
+        have : (L.items c).isEmpty = false := by rw [hl]; rfl
+        simp only [hl, List.isEmpty_cons, Bool.false_eq_true, if_false]
+        rw [L.items_pop c hne, hl]
+        simp only [Spec.step]
+        cases hg : (a :: b).getLast? with
+        | none => simp at hg
+        | some p => rfl
+
+/-- **C19, containers**: for every sequence of the parser's container calls, a container of the new
+    family shows exactly the pairs the default container shows. -/
+theorem C19_containers_agree {C : Type} (L : ListLike C K V) (ops : List (POp K V)) :
+    L.items (runC L L.empty ops) = (run (empty : OMD K V) (ops.map POp.toOp)).items := by
+  rw [runC_spec, L.items_empty, (C10_history (ops.map POp.toOp)).2.1]
+
+/-- the assumptions are satisfiable: the plain list of pairs is such a container -/
+def listInstance : ListLike (List (K × V)) K V where
+  empty := []
+  append c k v := c ++ [(k, v)]
+  pop c := c.dropLast
+  items c := c
+  items_empty := rfl
+  items_append _ _ _ := rfl
+  items_pop _ _ := rfl
+
+example : (listInstance (K := Nat) (V := Nat)).items
+    (runC listInstance [] [.append 1 10, .append 2 0, .pop, .append 2 20, .append 1 11])
+    = [(1, 10), (2, 20), (1, 11)] := by decide
+
+end Pvl.MD
